@@ -555,7 +555,12 @@ class Library:
                 return a.map(lambda x: ix.ite(x < lo, lo, ix.ite(x > hi, hi, x)))
             raise OutOfReach("np.clip form")
 
-        return {"mean": np_mean, "clip": np_clip, "block": np_block, "array": np_array, "roll": np_roll, "zeros_like": np_zeros_like, "empty_like": np_zeros_like, "empty": np_empty,
+        def np_isclose(a, b, rtol=Fraction(1, 10**5), atol=Fraction(1, 10**8), **kw):
+            if is_reallike(a) and is_reallike(b):
+                return abs(a - b) <= atol + rtol * abs(b)
+            raise OutOfReach("np.isclose on arrays")
+
+        return {"isclose": np_isclose, "mean": np_mean, "clip": np_clip, "block": np_block, "array": np_array, "roll": np_roll, "zeros_like": np_zeros_like, "empty_like": np_zeros_like, "empty": np_empty,
                 "concatenate": np_concatenate, "real": np_real, "imag": np_imag, "any": np_any, "allclose": np_allclose}
 
     # -- FFT (axiomatised): fft2 of a real array is an uninterpreted complex function of the frequency;
